@@ -118,7 +118,7 @@ func (source SourceGeopackage) ReadFeatures(features chan<- processing.Feature) 
 				case []uint8:
 					asBytes := make([]byte, len(v))
 					copy(asBytes, v)
-					c = append(c, string(asBytes))
+					c = append(c, asBytes)
 				case int64:
 					c = append(c, v)
 				case float64:
